@@ -4,7 +4,10 @@ Theorems: lean/EmbitModel/Props/C16.lean (tables, GF(256) field, interpolation =
 Feistel inverse, share text round trip, RS1024 create/verify and 1-3 word error detection, refusal logic) and
 lean/EmbitModel/Props/C16X.lean (mnemonic/parse = encodeShare/decodeShare of the standard's bit layout for
 extendable flag 0; two-level recovery on valid sets = the standard's combineShares; any sufficient two-level set
-(supersets included) recovers; fewer groups / fewer members refused).
+(supersets included) recovers; fewer groups / fewer members refused) and lean/EmbitModel/Props/C16Y.lean
+(generate_shares succeeds exactly on valid parameters and a tape of 1 + [k >= 2](L-4 + (k-2)L) draws — checked here
+against the number of randint calls embit makes; threshold-1 mixed sets return the first secret in group order, a
+documented consequence of the standard having no digest share at threshold 1 — exercised by check_mixed_threshold_one).
 Tie: every op below is run on embit (randomness injected through the `randint` argument, deterministic from
 the seed) and on the Lean model / spec through the driver; the property predicate is also evaluated directly
 on embit (c.fail) without the model:
@@ -30,7 +33,7 @@ from embit.wordlists.slip39 import SLIP39_WORDS as W
 from embit.bip39 import mnemonic_from_bytes, mnemonic_to_bytes
 
 PROP = "C16"
-MODS = ["EmbitModel.Props.C16", "EmbitModel.Props.C16X"]
+MODS = ["EmbitModel.Props.C16", "EmbitModel.Props.C16X", "EmbitModel.Props.C16Y"]
 WIDX = {w: i for i, w in enumerate(W)}
 
 
@@ -493,6 +496,12 @@ def generate(c, mode, secret, k, n, passphrase, e, first_id=None, style=None):
             c.fail("generate_shares raised for valid parameters", dict(info, op="generate", exc=repr(ms)))
         return None, info
     c.expect(req, "ok %d %s" % (len(ms), " ".join(tl(idx_of(m)) for m in ms)), info, proven=False)
+    # Props/C16Y.lean generate_draws / generate_succeeds_iff: the exact number of randint calls
+    draws = 1 + (0 if k == 1 else (len(secret) - 4) + (k - 2) * len(secret))
+    c.tally("gen:draws:" + ("exact" if len(tape.tape) == draws else "differs"))
+    if len(tape.tape) != draws:
+        c.fail("generate_shares drew %d random numbers, the proved count is %d" % (len(tape.tape), draws),
+               dict(info, op="generate.draws"))
     return ms, info
 
 
@@ -619,6 +628,75 @@ def check_mixed_and_digest(c, rounds):
             s0 = Share.parse(base[0])
             mix = [reprint(base[0], member_threshold=2, member_index=0), reprint(base[0], member_threshold=3, member_index=1)] + base[1:]
             refused(c, "mixed:member-threshold", mix, pw, info)
+
+
+def check_mixed_threshold_one(c, rounds):
+    """Threshold 1 — an EXPECTED, DOCUMENTED behaviour, not a refusal (audit A11 / I-16.2).
+
+    SLIP-0039 has no digest share at threshold 1: every share carries the encrypted secret itself. Two share sets of
+    two DIFFERENT secrets generated with the same identifier / exponent / passphrase / n and threshold 1 have identical
+    headers; one share of each (different indices) is accepted by embit, which accepts more shares than the threshold
+    asks for, and `recover` returns `decrypt(share_data[0][1])`: the secret of the share that comes first in GROUP
+    order (smaller group index; list order inside one group) — Props/C16Y.lean `mixed_threshold_one_generated`,
+    `mixed_threshold_one_returns_first`. The standard calls the two-share set invalid by counting
+    (`mixed_threshold_one_invalid_for_standard`; spec ops below). Same index twice is refused by the uniqueness check
+    (`mixed_threshold_one_same_index_refused`). Tallies, not failures, as long as embit does exactly this."""
+    rng = c.rng
+    with kdf("fake"):
+        for _ in range(rounds):
+            size = rng.choice([16, 32])
+            n = rng.randrange(2, 17)
+            e = rng.randrange(4)
+            pw = rpass(rng)
+            ident = rng.getrandbits(15)
+            sec1 = rbytes(rng, size)
+            sec2 = rbytes(rng, size)
+            while sec2 == sec1:
+                sec2 = bytes(rng.getrandbits(8) for _ in range(size))
+            a, ia = generate(c, "fake", sec1, 1, n, pw, e, first_id=ident, style="uniform")
+            b, _ = generate(c, "fake", sec2, 1, n, pw, e, first_id=ident, style="uniform")
+            if a is None or b is None:
+                continue
+            i, j = rng.sample(range(n), 2)
+            info = dict(ia, secret2=sec2.hex(), i=i, j=j, what="threshold-1 mixed set (documented: first in group order)")
+            # (a) one share of each set, different group indices, both list orders: the smaller group index decides
+            first = sec1 if i < j else sec2
+            cases = [("groups", [a[i], b[j]], first), ("groups-swapped", [b[j], a[i]], first)]
+            # (b) both shares in ONE group (member threshold 1, member indices 0 and 1): list order decides
+            x = reprint(b[j], group_index=i, member_index=1)
+            cases += [("members", [a[i], x], sec1), ("members-swapped", [x, a[i]], sec2)]
+            for kind, mix, want in cases:
+                minfo = dict(info, kind=kind, shares=mix, expected=want.hex())
+                got = expect_recover(c, "fake", mix, pw, minfo, proven=True)     # mixed_threshold_one_* (C16Y)
+                # the standard: not a valid set (two shares where the thresholds are 1), combination refuses
+                c.expect("slip39.validset.spec " + tmnems(mix), "ok 0", minfo, proven=True)
+                c.expect("slip39.combine.spec fake %s %s" % (hx(pw), tmnems(mix)), "none", minfo, proven=True)
+                c.count(("mixed-k1", kind, tuple(mix), pw), True)
+                if got == want:
+                    c.tally("mixed:k1:first-returned")
+                    c.tally("mixed:k1:first-returned:" + kind)
+                elif got is None:
+                    # stricter than documented (e.g. a future embit comparing the values / counting shares): not a
+                    # violation of the property, but no longer the behaviour the theorem describes -> model mismatch
+                    c.tally("mixed:k1:refused:" + kind)
+                elif got in (sec1, sec2):
+                    c.tally("mixed:k1:other-returned:" + kind)
+                    c.fail("threshold-1 mixed set: embit returned the secret of the share that is NOT first in group "
+                           "order (documented behaviour changed)", dict(minfo, op="mixed-k1", got=got.hex()))
+                else:
+                    c.fail("threshold-1 mixed set: embit returned a value that is neither of the two secrets",
+                           dict(minfo, op="mixed-k1", got=got.hex()))
+            # (c) the same index of both sets: refused by the index-uniqueness check, whatever the values
+            refused(c, "mixed:k1:same-index", [a[i], b[i]], pw, dict(info, kind="same-index"))
+            # (d) a single share of either set is a valid set and gives that set's secret
+            for one, want in ((a[i], sec1), (b[j], sec2)):
+                got = expect_recover(c, "fake", [one], pw, dict(info, kind="single", shares=[one]), proven=True)
+                c.expect("slip39.validset.spec " + tmnems([one]), "ok 1", dict(info, kind="single"), proven=True)
+                c.count(("single-k1", one, pw), True)
+                c.tally("mixed:k1:single:" + ("recovered" if got == want else "wrong"))
+                if got != want:
+                    c.fail("a single threshold-1 share does not return its secret",
+                           dict(info, op="single-k1", shares=[one], got=(got.hex() if got is not None else None)))
 
 
 def check_two_level(c, rounds):
@@ -831,6 +909,7 @@ def explore(c, tier):
                     shares_for_subst.append(rng.choice(ms))
             c.flush()
     check_mixed_and_digest(c, 25 if quick else 300)
+    check_mixed_threshold_one(c, 20 if quick else 250)
     check_two_level(c, 15 if quick else 200)
     check_crypt(c, "fake", 60 if quick else 600)
     c.flush()
@@ -861,7 +940,8 @@ def run(tier, seed):
     c.rule = ("every 1<=k<=n<=16 at raw split level and through generate_shares/recover_mnemonic (128- and 256-bit secrets, "
               "passphrases, exponents 0-3, injected randint tape incl. constant/edge tapes), subsets exhaustive for n<=6 and "
               "sampled around the threshold above; mixed sets (other id / same id other split / exponent / thresholds / "
-              "counts / length / duplicates), corrupted value byte with repaired checksum, all single-word substitutions of "
+              "counts / length / duplicates), threshold-1 mixed sets of two secrets with identical headers (expected: first secret in "
+              "group order, tallied mixed:k1:*), corrupted value byte with repaired checksum, all single-word substitutions of "
               "sampled 20- and 33-word shares, sampled 2-3 word substitutions, near-valid mnemonics (lengths 0-40, padding "
               "bits, Gt>g), two-level group sets, official vectors from the repo tests; a case is distinct by content and "
               "non-trivial when k>=2 or it is a mutated/assembled share set")
